@@ -724,7 +724,9 @@ def queue_call(I, fv, args, kw):
             e = _queue_elem(I, o, o.meta["head"])
             o.meta["head"] = ops._arith(I, "+", o.meta["head"], mkint(1))
             return e
-        return VCoro(thunk)
+        co = VCoro(thunk)
+        co.queue = o
+        return co
     if name == "empty":
         return ops.int_cmp("<=", _queue_size(I, o), mkint(0))
     if name == "qsize":
@@ -1042,7 +1044,70 @@ def asyncio_create_task(I, fv, args, kw):
     return t
 
 
-_LIB.update({"asyncio.create_task": asyncio_create_task})
+def asyncio_ensure_future(I, fv, args, kw):
+    used(I, "asyncio.ensure_future/create_task(aw) + asyncio.wait({t}, timeout): the task is done (its awaitable ran) or still pending at the "
+            "timeout; a pending Queue.get() task stays registered as a consumer of the queue until it is cancelled")
+    return ext_obj(I, "task", coro=args[0], state="pending")
+
+
+def asyncio_wait(I, fv, args, kw):
+    from .interp import VCoro
+    tasks = I.iterate(args[0])
+    if len(tasks) != 1 or not isinstance(tasks[0], VRef) or I.hobj(tasks[0]).meta.get("tag") != "task":
+        raise Unsupported("asyncio.wait on anything but one task")
+    t = tasks[0]
+    to = I.hobj(t)
+
+    def thunk():
+        k = I.path.choose(2, "wait_done")
+        env_step(I)
+        if k == 0:
+            from .interp import PyRaise
+            try:
+                to.meta["result"] = I.await_(to.meta["coro"])
+            except PyRaise as e:
+                to.meta["exc"] = e
+            to.meta["state"] = "done"
+            return VTuple([I.new_set([t]), I.new_set([])])
+        q = getattr(to.meta["coro"], "queue", None)
+        if q is not None:
+            q.meta["pending_getters"] = q.meta.get("pending_getters", 0) + 1
+            to.meta["registered"] = q
+        return VTuple([I.new_set([]), I.new_set([t])])
+    return VCoro(thunk)
+
+
+def task_attr(I, ref, o, name):
+    from .interp import VBuiltin
+    return VBuiltin("task." + name, ref)
+
+
+def task_call(I, fv, args, kw):
+    o = I.hobj(fv.self_val)
+    name = fv.name.split(".")[-1]
+    if name == "result":
+        if o.meta.get("state") != "done":
+            raise Unsupported("result() of a task that is not done")
+        if "exc" in o.meta:
+            raise o.meta["exc"]
+        return o.meta["result"]
+    if name == "done":
+        return mkbool(o.meta.get("state") == "done")
+    if name == "cancel":
+        q = o.meta.pop("registered", None)
+        if q is not None:
+            q.meta["pending_getters"] = q.meta.get("pending_getters", 0) - 1
+        if o.meta.get("state") != "done":
+            o.meta["state"] = "cancelled"
+        return mkbool(True)
+    if name == "add_done_callback":
+        return NONE
+    raise Unsupported(f"task method {name}")
+
+
+_EXT_ATTR.update({"task": task_attr})
+_LIB_PREFIX.update({"task.": task_call})
+_LIB.update({"asyncio.create_task": asyncio_create_task, "asyncio.ensure_future": asyncio_ensure_future, "asyncio.wait": asyncio_wait})
 _EXT_ATTR.update({"pset": pset_attr})
 _LIB_PREFIX.update({"pset.": pset_call})
 _EXT_MAKE.update({"pset": make_pset})
